@@ -65,6 +65,12 @@ func c04Scenarios(cfg runCfg) []Scenario {
 			hist = append(hist, Scenario{Family: "abuse-history", Seed: mix(cfg.seed, 4, 47, uint64(j))})
 		}
 	}
+	// one fuzz target, many inputs one after the other: what an input draws does not depend on the inputs before it
+	for j := 0; j < cfg.n(64, 10); j++ {
+		if cfg.mine(j) {
+			hist = append(hist, Scenario{Family: "fuzz-history", Seed: mix(cfg.seed, 4, 48, uint64(j))})
+		}
+	}
 	// every rejection-heavy regexp, as a string and as a byte slice, is recorded, pruned and replayed on its own
 	for j := 0; j < 2*len(rejRegexps); j++ {
 		if cfg.mine(j) {
@@ -136,6 +142,72 @@ func c04Run(t *testing.T, sc Scenario, res *Result) {
 	mirror := sc.X["mirror"] == "1"
 	r := newRng(sc.Seed, 0xc04)
 	switch sc.Family {
+	case "fuzz-history":
+		// same bytes, same test case: ONE function returned by MakeFuzz is fed 40 inputs (long ones, then shorter
+		// ones that overrun, repeats), and every input is also given to a target of its own in another order
+		o := progOptsFor(sc.Seed)
+		o.goroutines = false
+		p := genProg(sc.Seed, o)
+		lg := &Log{keepAll: true}
+		prop := lg.prop(p.body())
+		var recs [][]uint64
+		for k := 0; k < 6; k++ {
+			vs, _ := rapid.VerifRecord(mix(sc.Seed, uint64(k)), prop)
+			recs = append(recs, vs.Data)
+		}
+		var inputs [][]byte
+		for k := 0; k < 40; k++ {
+			ws := append([]uint64(nil), pick(r, recs)...)
+			switch r.intn(4) {
+			case 0: // cut short: overruns where the one before it went on
+				if len(ws) > 0 {
+					ws = ws[:r.intn(len(ws))]
+				}
+			case 1: // made longer
+				for j := 0; j < 1+r.intn(30); j++ {
+					ws = append(ws, hostileWord(r, r.intn(wordPatterns)))
+				}
+			case 2:
+				if len(ws) > 0 {
+					ws[r.intn(len(ws))] = hostileWord(r, r.intn(wordPatterns))
+				}
+			}
+			in := wordsToBytes(ws)
+			if len(in) > 0 && r.chance(1, 4) {
+				in = in[:len(in)-r.intn(8)]
+			}
+			inputs = append(inputs, in)
+		}
+		run := func(fz func(*testing.T, []byte), in []byte) string {
+			lg.Invs = lg.Invs[:0]
+			var st *testing.T
+			t.Run("f", func(s *testing.T) { st = s; fz(s, in) })
+			status := "pass"
+			if st.Failed() {
+				status = "fail"
+			} else if st.Skipped() {
+				status = "skip"
+			}
+			key := "?"
+			if len(lg.Invs) == 1 {
+				key = lg.Invs[0].drawsKey()
+			}
+			return status + "|" + key
+		}
+		shared := rapid.MakeFuzz(prop)
+		var inOrder []string
+		for _, in := range inputs {
+			inOrder = append(inOrder, run(shared, in))
+		}
+		res.inc("fuzz_histories")
+		res.count("fuzz_history_inputs", int64(len(inputs)))
+		res.nontrivial("fuzz-history/" + p.Desc)
+		for k := len(inputs) - 1; k >= 0; k-- {
+			if alone := run(rapid.MakeFuzz(prop), inputs[k]); alone != inOrder[k] {
+				res.violate(sc, "c04/fuzz-history", fmt.Sprintf("input #%d (%d bytes) of a sequence given to one fuzz target ended %q with other draws than the same bytes given to a fresh target (%q)", k, len(inputs[k]), clip(inOrder[k], 60), clip(alone, 60)), map[string]any{"program": p.Desc, "input_words": wordsStr(bytesToWords(inputs[k]))})
+				return
+			}
+		}
 	case "abuse-history":
 		// A generator is an immutable specification: what ONE instance draws for a seed does not depend on how many
 		// draws gave up inside it before (each of those unwinds, by a panic, through all of its frames).
